@@ -3,8 +3,9 @@
    Model: model/Using.v (formatter.py + the digit-string assembly of numbers.py, defects D08a-d fixed);
    the (mantissa, exponent) pairs of Float.to_decimal are inputs of the model (property C07). *)
 From Coq Require Import ZArith List Bool QArith Qabs.
-From PCB Require Import lib.Result lib.PyInt lib.Harness gen.Gen_using model.Using
-  proofs.Using_proofs proofs.Using_digits proofs.Using_cycle.
+From PCB Require Import lib.Result lib.PyInt lib.Harness lib.MBFPrims gen.Gen_mbf model.MBF
+  gen.Gen_using model.Using model.UsingDec
+  proofs.Using_proofs proofs.Using_digits proofs.Using_cycle proofs.Using_round proofs.Using_exact.
 Import ListNotations.
 Open Scope Z_scope.
 
@@ -175,11 +176,81 @@ Theorem C08_sci_pair : forall v w m0 e0,
 Proof. exact sci_pair_spec. Qed.
 Print Assumptions C08_sci_pair.
 
+(* ---- the rounding arithmetic of to_str_fixed itself, for ALL pairs ---- *)
+
+(* round_half_up_scaled m s = m * 10^s rounded to the nearest integer, halves up (m >= 0) *)
+Theorem C08_round_half_up : forall m s, 0 <= m -> s < 0 ->
+  let N := round_half_up_scaled m s in
+  (2 * N - 1) * 10 ^ (- s) <= 2 * m < (2 * N + 1) * 10 ^ (- s).
+Proof. exact round_half_up_scaled_spec. Qed.
+Print Assumptions C08_round_half_up.
+
+(* the regenerated D08a arithmetic is that rounding *)
+Theorem C08_round_small : forall d nw m nd, 0 < d -> nw <= 0 -> 0 <= m <= 10 ^ d ->
+  using_round_small d nw m nd = (round_half_up_scaled m (nw - d), - nd).
+Proof. exact using_round_small_spec. Qed.
+Print Assumptions C08_round_small.
+
+(* whenever to_str_fixed does the arithmetic itself (the full-precision pair has no more decimals than the
+   field, or the value is below one unit of the field's last decimal) the number shown is
+   mantissa * 10^exponent rounded half up at the last decimal - for every pair with |mantissa| <= 10^digits.
+   (In the remaining case the code asks to_decimal for n_work digits: C08_fixed_pair.) *)
+Theorem C08_fixed_rounding : forall v n_dec fd g m0 e0,
+  nv_zero v = false -> to_decimal v (nv_digits v) = Ok (m0, e0) -> 0 <= n_dec ->
+  Z.abs m0 <= 10 ^ nv_digits v ->
+  (- e0 <= n_dec \/ nv_digits v - (- e0 - n_dec) <= 0) ->
+  exists ip fp,
+    to_str_fixed v n_dec fd g
+      = Ok (grp g ip ++ (if (0 <? n_dec) || fd then [cDOT] else []) ++ fp)
+    /\ Z.of_nat (length fp) = n_dec
+    /\ Forall is_digit (ip ++ fp)
+    /\ dval (ip ++ fp) = round_half_up_scaled (Z.abs m0) (e0 + n_dec).
+Proof. exact to_str_fixed_rounding. Qed.
+Print Assumptions C08_fixed_rounding.
+
+(* `#^^^^` (the only digit position goes to the sign): no digits; the exponent shown is the decimal exponent
+   of to_decimal(0) = the number of divisions by ten that bring the value below 1: the count of integer
+   digits for |x| >= 1 (" E+01" for 1, as the code documents for GW-BASIC), 0 for every |x| < 1 *)
+Theorem C08_no_digit_exponent : forall v fd m e,
+  nv_zero v = false -> to_decimal v 0 = Ok (m, e) ->
+  exists dd,
+    to_str_scientific v 0 0 fd
+      = Ok ((if fd then [cDOT] else []) ++ exp_sign v :: (if e <? 0 then cMINUS else cPLUS) :: dd)
+    /\ (2 <= length dd)%nat /\ Forall is_digit dd /\ dval dd = Z.abs e.
+Proof. exact sci_no_digit_positions. Qed.
+Print Assumptions C08_no_digit_exponent.
+
+(* ---- connection with C07: to_decimal computed from the MBF bytes by the regenerated core ---- *)
+
+(* Float.to_decimal(k) of an integer-valued number, 0 < |n| < 10^k, for EVERY precision 1 <= k <= digits
+   (limits just under 10^(k-1) and 10^k from the regenerated table): exact, k significant digits *)
+Theorem C08_to_decimal_int : forall dbl b n k,
+  let C := dec_consts dbl in
+  buf_ok C b -> f_sval C b = n * 2 ^ c_bias C -> n <> 0 -> 1 <= k <= c_digits C -> Z.abs n < 10 ^ k ->
+  exists j, 0 <= j /\ buf_to_decimal dbl b k = Ok (Z.abs n * 10 ^ j, - j) /\
+            10 ^ (k - 1) <= Z.abs n * 10 ^ j < 10 ^ k.
+Proof. exact buf_to_decimal_int. Qed.
+Print Assumptions C08_to_decimal_int.
+
+(* digits clause, no input assumed: an integer-valued single/double n, 0 < |n| < 10^7 / 10^16 (this includes
+   every BASIC integer), in ANY fixed-point field shows exactly n_dec decimals and exactly the value |n| *)
+Theorem C08_int_fixed_exact : forall dbl b n n_dec fd g,
+  let C := dec_consts dbl in
+  buf_ok C b -> f_sval C b = n * 2 ^ c_bias C -> n <> 0 -> Z.abs n < 10 ^ c_digits C -> 0 <= n_dec ->
+  exists ip fp,
+    to_str_fixed (nval_of_bytes dbl b) n_dec fd g
+      = Ok (grp g ip ++ (if (0 <? n_dec) || fd then [cDOT] else []) ++ fp)
+    /\ Z.of_nat (length fp) = n_dec
+    /\ Forall is_digit (ip ++ fp)
+    /\ dval (ip ++ fp) = Z.abs n * 10 ^ n_dec.
+Proof. exact int_fixed_exact. Qed.
+Print Assumptions C08_int_fixed_exact.
+
 (* PARTIAL: the clause "the digits shown equal the value rounded to the field's decimal places (within the
-   accuracy of decimal conversion)" in full needs the binary->decimal conversion Float.to_decimal, which is
-   an input here (C07).  Full statement for fixed-point fields, relative to a value q and a conversion that
-   is exact to half a unit of the last digit asked for; NOT proved (tested by the oracle of harness/C08.py
-   against an exact rational reference). *)
+   accuracy of decimal conversion)" for values that are not integers needs an error bound for the scaling
+   loops of Float.to_decimal (open in C07: C07_print_err_statement).  Full statement for fixed-point fields,
+   relative to a value q and a conversion that is exact to half a unit of the last digit asked for; NOT
+   proved (tested by the oracle of harness/C08.py against an exact rational reference). *)
 Definition Qpow10 (e : Z) : Q := Qpower (10 # 1) e.
 Definition is_digitb (c : Z) : bool := (cZERO <=? c) && (c <=? cZERO + 9).
 Fixpoint after_dot (l : list Z) : list Z :=
@@ -286,3 +357,12 @@ Example C08_nonvacuous_digits :
   nv_zero v = false /\ fixed_pair v 2 = Ok (233730, -2) /\ - (-2) <= 2
   /\ sci_pair (mkNV false false false [(3, (1000, -2))]) 3 = Ok (100, 2).
 Proof. vm_compute. repeat split; try reflexivity; discriminate. Qed.
+
+(* the integer 5 as a single (bytes 00 00 20 83) satisfies the hypotheses of C08_int_fixed_exact; in ##.## it
+   is "5.00" with to_decimal computed from the bytes *)
+Example C08_nonvacuous_int :
+  let b := [0; 0; 32; 131] in
+  buf_okb Single_consts b = true /\ f_sval Single_consts b = 5 * 2 ^ c_bias Single_consts
+  /\ to_str_fixed (nval_of_bytes false b) 2 true false = Ok [53; 46; 48; 48]
+  /\ buf_to_decimal false b 3 = Ok (500, -2).
+Proof. vm_compute. repeat split; reflexivity. Qed.
